@@ -84,6 +84,9 @@ pub struct Shared {
     pub greeting_len: usize,
     /// short writes: the transport accepts at most this many bytes per write call
     pub write_chunk: Option<usize>,
+    /// stalled transport: `Some(n)` = only n more bytes are accepted, then writes return Pending
+    pub write_stall: Option<usize>,
+    write_waker: Option<Waker>,
     /// lazy server: bytes written by the client wait here until a ServerStep event processes a line
     pub lazy: bool,
     pub inbox: Vec<u8>,
@@ -154,6 +157,20 @@ impl AsyncWrite for MockIo {
             s.log.push(Obs::WriteErr);
             return Poll::Ready(Err(io::Error::new(io::ErrorKind::BrokenPipe, "injected write error")));
         }
+        // a stalled transport (full send buffer) accepts a few more bytes and then makes the writer wait
+        let buf = match s.write_stall {
+            Some(0) => {
+                s.activity -= 1;
+                s.write_waker = Some(_cx.waker().clone());
+                return Poll::Pending;
+            }
+            Some(n) => {
+                let k = n.min(buf.len());
+                s.write_stall = Some(n - k);
+                &buf[..k]
+            }
+            None => buf,
+        };
         // a transport may take fewer bytes than offered (short write); the caller has to come back
         let buf = match s.write_chunk {
             Some(c) if c < buf.len() => &buf[..c.max(1)],
@@ -262,6 +279,12 @@ pub struct Scenario {
     /// the server processes request lines only at explicit ServerStep events (validation of the
     /// eager-server reduction, DESIGN.md section 5)
     pub lazy_server: bool,
+    /// the application does not poll `ConnectionEvents` until the very end
+    pub poll_events_at_end_only: bool,
+    /// how often the transport's write side may stall (Pending) for a while
+    pub stall_budget: usize,
+    /// how often an hour may pass while the client waits for a reply
+    pub long_tick_budget: usize,
     /// subsystem changes that happen before the server has processed the client's first `idle`
     /// (they count against `notify_budget`)
     pub initial_notifications: Vec<&'static str>,
@@ -295,6 +318,9 @@ impl Scenario {
             order_flip_budget: 1,
             write_chunk: None,
             lazy_server: false,
+            poll_events_at_end_only: false,
+            stall_budget: 0,
+            long_tick_budget: 1,
             initial_notifications: vec![],
             faults: vec![],
             fault_budget: 0,
@@ -323,6 +349,9 @@ impl Scenario {
 
             "write_chunk": self.write_chunk,
             "lazy_server": self.lazy_server,
+            "poll_events_at_end_only": self.poll_events_at_end_only,
+            "stall_budget": self.stall_budget,
+            "long_tick_budget": self.long_tick_budget,
             "initial_notifications": self.initial_notifications,
             "faults": self.faults.iter().map(|f| format!("{f:?}")).collect::<Vec<_>>(),
             "fault_budget": self.fault_budget,
@@ -349,6 +378,11 @@ pub enum Ev {
     Issue(usize),
     Tick,
     HalfTick,
+    /// an hour passes while the client waits for a reply (a slow server must only be slow)
+    LongTick,
+    /// the transport accepts k more bytes and then stalls (writes return Pending) until unstalled
+    StallWrites(usize),
+    UnstallWrites,
     Cancel(usize, usize),
     Notify(String),
     /// both branches of the idle `select!` become ready in the same poll: caller `caller` issues
@@ -374,6 +408,9 @@ impl Ev {
             Ev::Issue(i) => format!("Issue({i})"),
             Ev::Tick => "Tick".into(),
             Ev::HalfTick => "HalfTick".into(),
+            Ev::LongTick => "LongTick".into(),
+            Ev::StallWrites(k) => format!("StallWrites({k})"),
+            Ev::UnstallWrites => "UnstallWrites".into(),
             Ev::Cancel(i, j) => format!("Cancel({i},{j})"),
             Ev::Notify(n) => format!("Notify({n})"),
             Ev::Race { caller, k, recv_first } => format!(
@@ -712,7 +749,10 @@ struct World {
     cancels_used: usize,
     races_used: usize,
     flips_used: usize,
+    stalls_used: usize,
+    long_ticks_used: usize,
     rng_pos: usize,
+    draining: bool,
     faults_used: usize,
     loose_ticks_used: usize,
     fault: Option<(Ev, usize)>,
@@ -871,7 +911,7 @@ impl World {
     }
 
     fn poll_events(&mut self) {
-        if self.events_ended {
+        if self.events_ended || (self.scn.poll_events_at_end_only && !self.draining) {
             return;
         }
         let Some(rx) = &mut self.events_rx else { return };
@@ -1044,6 +1084,20 @@ impl World {
             }
         }
         let strict = self.strict_tick();
+        let stalled = self.sh().write_stall.is_some();
+        if stalled {
+            defaults.push(Ev::UnstallWrites);
+        } else if self.stalls_used < self.scn.stall_budget && self.connected() && self.fault.is_none() {
+            alts.push(Ev::StallWrites(0));
+            alts.push(Ev::StallWrites(2));
+        }
+        if self.connected() && !strict && self.long_ticks_used < self.scn.long_tick_budget && self.fault.is_none() {
+            // the client is waiting for the reply to something it wrote
+            let last = self.last_client_line();
+            if matches!(last.as_deref(), Some(l) if l != b"idle" && l != b"<partial>") {
+                alts.push(Ev::LongTick);
+            }
+        }
         if self.connected() {
             if strict {
                 defaults.push(Ev::Tick);
@@ -1208,6 +1262,22 @@ impl World {
                 }
                 self.ticks += Duration::from_millis(100);
                 tokio::time::advance(Duration::from_millis(100)).await;
+            }
+            Ev::LongTick => {
+                self.long_ticks_used += 1;
+                self.ticks += Duration::from_secs(3600);
+                tokio::time::advance(Duration::from_secs(3600)).await;
+            }
+            Ev::StallWrites(k) => {
+                self.stalls_used += 1;
+                self.sh().write_stall = Some(*k);
+            }
+            Ev::UnstallWrites => {
+                let mut s = self.sh();
+                s.write_stall = None;
+                if let Some(w) = s.write_waker.take() {
+                    w.wake();
+                }
             }
             Ev::HalfTick => {
                 self.ticks += Duration::from_millis(50);
@@ -1392,6 +1462,8 @@ async fn run_async(scn: &Scenario, chooser: &mut dyn Chooser) -> Result<Trace, S
         obs_running: 0,
         greeting_len: scn.greeting.len(),
         write_chunk: scn.write_chunk,
+        write_stall: None,
+        write_waker: None,
         lazy: scn.lazy_server,
         inbox: Vec::new(),
     }));
@@ -1438,7 +1510,10 @@ async fn run_async(scn: &Scenario, chooser: &mut dyn Chooser) -> Result<Trace, S
         cancels_used: 0,
         races_used: 0,
         flips_used: 0,
+        stalls_used: 0,
+        long_ticks_used: 0,
         rng_pos: 0,
+        draining: false,
         faults_used: 0,
         loose_ticks_used: 0,
         fault: None,
@@ -1499,6 +1574,14 @@ async fn run_async(scn: &Scenario, chooser: &mut dyn Chooser) -> Result<Trace, S
 
     // ---- drain ---------------------------------------------------------------------------
     w.log(Obs::Drain);
+    w.draining = true;
+    {
+        let mut s = w.sh();
+        s.write_stall = None;
+        if let Some(wk) = s.write_waker.take() {
+            wk.wake();
+        }
+    }
     w.flush_inbox();
     {
         let mut s = w.sh();
